@@ -122,6 +122,7 @@ type vConn struct {
 	out    []byte
 	one    bool
 	cutErr bool
+	endWithData bool // report the end of the stream together with the last bytes
 }
 
 func (c *vConn) Read(p []byte) (int, error) {
@@ -140,6 +141,12 @@ func (c *vConn) Read(p []byte) (int, error) {
 	}
 	copy(p, c.in[c.pos:c.pos+n])
 	c.pos += n
+	if c.endWithData && c.pos >= len(c.in) {
+		if c.cutErr {
+			return n, io.ErrUnexpectedEOF
+		}
+		return n, io.EOF
+	}
 	return n, nil
 }
 
